@@ -14,7 +14,7 @@ use kurbo::{dash, CubicBez, Line, ParamCurve, ParamCurveArclen, ParamCurveNeares
 const ACC: f64 = 1e-6;
 
 pub fn prop() -> Prop {
-    Prop { id: "C13", corr, laws, extra, law_budget: (150, 4000) }
+    Prop { id: "C13", corr, laws, extra, law_budget: (300, 6000) }
 }
 
 fn run_dash(els: &[PathEl], off: f64, pat: &[f64]) -> (Vec<PathEl>, u64) {
@@ -147,10 +147,13 @@ fn generic_path(r: &mut Rng, kinds: u64, wild: bool) -> Vec<PathEl> {
         }
         let n = if wild && r.chance(1, 12) { 0 } else { 1 + r.below(4) };
         for i in 0..n {
-            let end = if i + 1 == n && r.chance(1, 5) { start } else { generic_point(r) };
+            let back = i + 1 == n && r.chance(1, 5);
+            let end = if back { start } else { generic_point(r) };
             match r.below(kinds) {
                 0 => els.push(PathEl::LineTo(end)),
-                1 => els.push(PathEl::QuadTo(generic_point(r), end)),
+                // not back to its own start: a quadratic with p0 = p2 is a doubled-back line with a
+                // cusp, on which `inv_arclen` itself goes wrong (property C03's business)
+                1 if !(back && n == 1) => els.push(PathEl::QuadTo(generic_point(r), end)),
                 _ => els.push(PathEl::CurveTo(generic_point(r), generic_point(r), end)),
             }
         }
@@ -208,9 +211,9 @@ fn split(els: &[PathEl]) -> Vec<Sub> {
             PathEl::ClosePath => {
                 if last != start {
                     cur.push(PathSeg::Line(Line::new(last, start)));
+                    last = start;
                 }
                 subs.push(Sub { start, segs: std::mem::take(&mut cur), closed: true });
-                last = start;
             }
         }
     }
@@ -226,8 +229,23 @@ fn is_line(s: &PathSeg) -> bool {
 fn seg_len(s: &PathSeg) -> f64 {
     match s {
         PathSeg::Line(l) => (l.p1 - l.p0).hypot(),
-        _ => s.arclen(1e-10),
+        _ => s.arclen(1e-9),
     }
+}
+
+/// parameter at arc length `u` of a curve, by bisection on `arclen` of the initial piece
+/// (kurbo's own `inv_arclen` is what the iterator uses; the oracle does not)
+fn inv_len(seg: &PathSeg, u: f64) -> f64 {
+    let (mut lo, mut hi) = (0.0f64, 1.0f64);
+    for _ in 0..36 {
+        let mid = 0.5 * (lo + hi);
+        if seg.subsegment(0.0..mid).arclen(1e-9) < u {
+            lo = mid;
+        } else {
+            hi = mid;
+        }
+    }
+    0.5 * (lo + hi)
 }
 
 /// the point of the sub-path at arc length `s` from its start
@@ -242,7 +260,7 @@ fn point_at(segs: &[PathSeg], lens: &[f64], s: f64) -> Point {
             }
             return match seg {
                 PathSeg::Line(ln) => ln.p0.lerp(ln.p1, u / l),
-                _ => seg.eval(seg.inv_arclen(u, 1e-10)),
+                _ => seg.eval(inv_len(seg, u)),
             };
         }
         acc += l;
@@ -251,7 +269,7 @@ fn point_at(segs: &[PathSeg], lens: &[f64], s: f64) -> Point {
 }
 
 fn dist_to_sub(segs: &[PathSeg], p: Point) -> f64 {
-    segs.iter().map(|s| s.nearest(p, 1e-12).distance_sq).fold(f64::INFINITY, f64::min).max(0.0).sqrt()
+    segs.iter().map(|s| s.nearest(p, 1e-9).distance_sq).fold(f64::INFINITY, f64::min).max(0.0).sqrt()
 }
 
 /// The "on" intervals of the pattern, shifted by the offset, inside [0, len] (positions along the
@@ -356,8 +374,14 @@ fn law_intervals(a: &[f64]) -> Option<(String, String)> {
         Err((c, d)) => return fail(&c, format!("{}; {}", d, describe())),
     };
 
+    // zero-length dashes (a switch exactly at a vertex or at the start of a sub-path) carry nothing
+    let glen = |g: &Group| -> f64 { g.segs.iter().map(seg_len).sum() };
+    let got: Vec<&Group> = gs.iter().filter(|g| glen(g) > tol).collect();
+
+    let attempt = |mask: u32| -> Option<(String, String)> {
     // what has to come out
     let mut want: Vec<Want> = Vec::new();
+    let mut oj = 0u32;
     for (si, s) in subs.iter().enumerate() {
         let len: f64 = lens[si].iter().sum();
         let raw = on_intervals(&pat, off, len);
@@ -365,7 +389,7 @@ fn law_intervals(a: &[f64]) -> Option<(String, String)> {
         // interval: whether the iterator sees it is decided by the last bit; no verdict
         for &(x, y) in &raw {
             let l = y - x;
-            if (l > tol && l <= 50.0 * tol) || (x > tol && x <= 50.0 * tol) || (len - y > tol && len - y <= 50.0 * tol) {
+            if (l > tol && l <= 50.0 * tol) || (x > 0.0 && x <= 50.0 * tol) || (len - y > 0.0 && len - y <= 50.0 * tol) {
                 return None;
             }
         }
@@ -385,20 +409,29 @@ fn law_intervals(a: &[f64]) -> Option<(String, String)> {
                 want.push(Want { parts: vec![iv[iv.len() - 1], iv[0]], looped: false, sub: si });
             }
         } else if first_on {
-            for k in 1..iv.len() {
-                want.push(Want { parts: vec![iv[k]], looped: false, sub: si });
+            // The iterator withholds the first dash of a sub-path and emits it after the others (it
+            // cannot know yet whether the sub-path will close).  On an open sub-path a first dash
+            // emitted first is just as much "in path order": both orders are accepted.
+            let natural = iv.len() > 1 && !s.closed && {
+                oj += 1;
+                (mask >> (oj - 1)) & 1 == 1
+            };
+            if natural {
+                for k in 0..iv.len() {
+                    want.push(Want { parts: vec![iv[k]], looped: false, sub: si });
+                }
+            } else {
+                for k in 1..iv.len() {
+                    want.push(Want { parts: vec![iv[k]], looped: false, sub: si });
+                }
+                want.push(Want { parts: vec![iv[0]], looped: false, sub: si });
             }
-            want.push(Want { parts: vec![iv[0]], looped: false, sub: si });
         } else {
             for k in 0..iv.len() {
                 want.push(Want { parts: vec![iv[k]], looped: false, sub: si });
             }
         }
     }
-
-    // zero-length dashes (a switch exactly at a vertex or at the start of a sub-path) carry nothing
-    let glen = |g: &Group| -> f64 { g.segs.iter().map(seg_len).sum() };
-    let got: Vec<&Group> = gs.iter().filter(|g| glen(g) > tol).collect();
 
     let kind = |w: &Want| -> &'static str {
         if subs[w.sub].closed {
@@ -481,6 +514,19 @@ fn law_intervals(a: &[f64]) -> Option<(String, String)> {
         }
     }
     None
+    };
+    // open sub-paths that start "on": either order of the first dash (see above)
+    let m = subs.iter().filter(|s| !s.closed).count().min(5) as u32;
+    let first = attempt(0);
+    if first.is_none() {
+        return None;
+    }
+    for mask in 1..(1u32 << m) {
+        if attempt(mask).is_none() {
+            return None;
+        }
+    }
+    first
 }
 
 /// The pattern restarts at every sub-path: dashing a path is dashing its sub-paths one by one
@@ -506,7 +552,7 @@ fn law_restart(a: &[f64]) -> Option<(String, String)> {
 }
 
 /// Bounded work: the number of iterations of `next`'s loop is at most
-/// 2 * (emitted elements) + 2 * (input elements) + 3.
+/// 2 * (emitted elements) + 5 * (input elements) + 2 (theorem C13_machine_is_spec).
 fn law_work(a: &[f64]) -> Option<(String, String)> {
     let (pat, off, els) = dec_args(a);
     // the counter is shared with solve_itp / arclen_rec, which curved segments reach
@@ -514,7 +560,7 @@ fn law_work(a: &[f64]) -> Option<(String, String)> {
         return None;
     }
     let (out, ticks) = run_dash(&els, off, &pat);
-    let bound = 2 * out.len() as u64 + 2 * els.len() as u64 + 3;
+    let bound = 2 * out.len() as u64 + 5 * els.len() as u64 + 2;
     if ticks > bound {
         return fail("work-bound", format!("{} iterations of next() for {} input and {} output elements (bound {}): {:?} offset {:?} pattern {:?}", ticks, els.len(), out.len(), bound, els, off, pat));
     }
@@ -615,7 +661,7 @@ fn emit_case(o: &mut Out, op: i64, group: &'static str, spec_group: &'static str
 fn corr(r: &mut Rng, thorough: bool, o: &mut Out) {
     // 1. exhaustive: every interleaving of the 6-letter alphabet up to a length, on one axis
     let maxlen = if thorough { 5 } else { 4 };
-    let pats: [(&[f64], f64); 6] = [(&[1.0, 0.5], 0.0), (&[1.0, 0.5], 1.5), (&[0.75], 0.25), (&[8.0, 1.0], 0.0), (&[0.5, 0.25, 1.0], 1.75), (&[2.0, 1.0], 2.0)];
+    let pats: [(&[f64], f64); 8] = [(&[1.0, 0.5], 0.0), (&[1.0, 0.5], 1.5), (&[0.75], 0.25), (&[8.0, 1.0], 0.0), (&[0.5, 0.25, 1.0], 1.75), (&[2.0, 1.0], 2.0), (&[1.0, 0.5], 1.25), (&[0.5, 0.25, 1.0], 0.625)];
     let mut count = 0u64;
     for len in 0..=maxlen {
         let alpha_h = axis_alphabet(false);
@@ -645,7 +691,7 @@ fn corr(r: &mut Rng, thorough: bool, o: &mut Out) {
         }
     }
     // 2. random staircases, dyadic patterns and offsets: bit-exact
-    let n = if thorough { 6000 } else { 500 };
+    let n = if thorough { 10000 } else { 600 };
     for i in 0..n {
         let pat = dyadic_pattern(r);
         let off = dyadic_offset(r, &pat);
@@ -692,17 +738,21 @@ fn extra(_r: &mut Rng, _thorough: bool, o: &mut Out) {
     use PathEl::*;
     let p = |x: f64, y: f64| Point::new(x, y);
     // every witness must satisfy the main law on the current tree
-    let witnesses: Vec<(&str, Vec<PathEl>, f64, Vec<f64>)> = vec![
-        ("closed sub-path inside one dash", vec![MoveTo(p(0., 0.)), LineTo(p(4., 0.)), LineTo(p(4., 4.)), ClosePath], 0.0, vec![100.0, 2.0]),
-        ("ClosePath right after MoveTo", vec![MoveTo(p(5., 5.)), ClosePath], 0.0, vec![2.0, 1.0]),
-        ("ClosePath after ClosePath", vec![MoveTo(p(0., 0.)), LineTo(p(4., 0.)), LineTo(p(4., 4.)), ClosePath, ClosePath], 0.0, vec![3.0, 2.0]),
-        ("empty closed sub-path after an open one", vec![MoveTo(p(0., 0.)), LineTo(p(4., 0.)), MoveTo(p(5., 5.)), ClosePath], 0.0, vec![3.0, 2.0]),
-        ("offset of one whole period on a closed sub-path", vec![MoveTo(p(0., 0.)), LineTo(p(4., 0.)), LineTo(p(4., 4.)), LineTo(p(0., 4.)), ClosePath], 5.0, vec![3.0, 2.0]),
+    let witnesses: Vec<(&str, &str, Vec<PathEl>, f64, Vec<f64>)> = vec![
+        ("C13-closepath-order", "closed sub-path inside one dash", vec![MoveTo(p(0., 0.)), LineTo(p(4., 0.)), LineTo(p(4., 4.)), ClosePath], 0.0, vec![100.0, 2.0]),
+        ("C13-empty-close", "ClosePath right after MoveTo", vec![MoveTo(p(5., 5.)), ClosePath], 0.0, vec![2.0, 1.0]),
+        ("C13-empty-close-2", "ClosePath after ClosePath", vec![MoveTo(p(0., 0.)), LineTo(p(4., 0.)), LineTo(p(4., 4.)), ClosePath, ClosePath], 0.0, vec![3.0, 2.0]),
+        ("C13-lost-moveto", "empty closed sub-path after an open one", vec![MoveTo(p(0., 0.)), LineTo(p(4., 0.)), MoveTo(p(5., 5.)), ClosePath], 0.0, vec![3.0, 2.0]),
+        ("C13-period-offset-join", "offset of one whole period on a closed sub-path", vec![MoveTo(p(0., 0.)), LineTo(p(4., 0.)), LineTo(p(4., 4.)), LineTo(p(0., 4.)), ClosePath], 5.0, vec![3.0, 2.0]),
     ];
-    for (name, els, off, pat) in witnesses {
+    for (id, name, els, off, pat) in witnesses {
         let args = enc_args(&pat, off, &els);
         o.oracle_eval("witness");
-        if let Some((class, desc)) = law_intervals(&args) {
+        let res = law_intervals(&args);
+        // reported as a replayed finding (matters only if the id is listed in known_findings.txt) ...
+        o.known(id, res.is_some(), format!("{}: dash({:?}, {:?}, {:?})", name, els, off, pat));
+        // ... and, as long as it fails, as a violation of the property
+        if let Some((class, desc)) = res {
             o.violation(&class, format!("[{}] {}", name, desc), format!("{{\"law\":\"intervals_stair\",\"args\":{}}}", crate::util::fmt_fs(&args)));
         }
     }
